@@ -53,15 +53,16 @@ func (ex *Exec) execCall(st *State, in *ssa.Call, b *ssa.BasicBlock, idx int) bo
 		return false
 	}
 	depth := len(st.frames)
+	var args []Value
 	k := func(st2 *State, results []Value) {
 		if len(st2.frames) != depth {
 			ex.unsupportedf("frame mismatch after call")
 		}
+		ex.atCallArgs = args // calls made inside the callee have overwritten the shared slot
 		ex.atCall(st2, in, false, results)
 		bind(st2, results)
 		ex.execFrom(st2, b, idx+1)
 	}
-	var args []Value
 	for _, a := range common.Args {
 		args = append(args, ex.val(st, a))
 	}
@@ -107,7 +108,7 @@ func (ex *Exec) atCall(st *State, in ssa.CallInstruction, before bool, results [
 		}
 		c := ex.ctxAt(st, fr, in.Block(), instrIndex(in))
 		for j, v := range ex.atCallArgs {
-			if t, ok := v.(Term); ok {
+			if t, ok := v.(Term); ok && j < len(in.Common().Args) {
 				c.binds[fmt.Sprintf("arg%d", j)] = TT{T: t, Ty: in.Common().Args[j].Type()}
 			}
 		}
